@@ -1,6 +1,6 @@
 """C16 — custom decorators are honoured verbatim and measured by display width."""
 from ..facts import AnchorMissing, callee_def, op_place, op_const, is_bare
-from ..util import (SUBR, RTRAIT, ends, site, fn_key, callee_method, require, deep_atoms, has_call,
+from ..util import (origin, SUBR, RTRAIT, ends, site, fn_key, callee_method, require, deep_atoms, has_call,
                     has_field, transitive_closures, consumer_of_ref)
 
 EXPLANATION = (
@@ -65,7 +65,12 @@ def rule_h(ctx):
     for cb in [b] + [c for _x, c in transitive_closures(F, b)]:
         for bb, t in cb.calls(lambda cd, t: ends(cd, "TaggedLine::<T>::insert_front")):
             n += 1
-            at = cb.atoms(t["args"][1])
+            # (the slice stops at the iterator's `next`: how the zip of lines and prefixes was built is C07-A/C03-E's matter)
+            src = t["args"][1]
+            o = origin(cb, src)
+            if o and o[0] == "rv" and o[1].get("agg") == "adt" and "s" in (o[1].get("fields") or []):
+                src = o[1]["ops"][o[1]["fields"].index("s")]  # the string of the TaggedString literal (its tag is C09's matter)
+            at = cb.atoms(src, stop_calls=lambda c: bool(c) and c.endswith("::next"))
             calls = sorted({a[1].split("::")[-1] for a in at if a[0] == "call" and a[1]})
             other = [c for c in calls if c not in COPIES]
             ctx.check(not other, "C16-H", "append_subrender:prefix-verbatim", t["span"], cb.id,
